@@ -997,8 +997,43 @@ structure State where
   closed : List String := []
   /-- what the handler of path `C14Keep` retained -/
   kept : Bytes := []
+  /-- the `onet.Client` objects of the case, per client name and path (= destination on the first
+  server): lock object, connection map, connections dialed so far (`KCl`, no caller under way) -/
+  clients : List ((String × String) × KCl) := []
 
 def init : State := {}
+
+/-- `NewClientKeep` for the client names k…, q…, p…; single-use otherwise -/
+def keepOf (client : String) : Bool := client.startsWith "k" || client.startsWith "q" || client.startsWith "p"
+
+def clientOf (s : State) (client path : String) : KCl :=
+  match s.clients.find? (fun e => e.1 == (client, path)) with
+  | some e => e.2
+  | none => { keep := keepOf client, callers := [] }
+
+def putClient (s : State) (client path : String) (y : KCl) : State :=
+  if s.clients.any (fun e => e.1 == (client, path)) then
+    { s with clients := s.clients.map fun e => if e.1 == (client, path) then (e.1, y) else e }
+  else { s with clients := s.clients ++ [((client, path), y)] }
+
+/-- one `Send` of the client object, nobody else using it meanwhile: the caller goes through
+`kStep` to the end (the schedule lists more attempts than needed; attempts that are not enabled are
+skipped), the server answers with `answered` -/
+def sendThrough (s : State) (client path : String) (req : Bytes) (answered : Bool) : State :=
+  let y := clientOf s client path
+  let c := match y.cur with | some c => c | none => y.conns.length
+  let y' := kRun .fixed (fun _ => if answered then some [] else none) { y with callers := [(req, .start)] }
+    [.caller 0, .caller 0, .caller 0, .caller 0, .caller 0, .server c, .caller 0]
+  putClient s client path { y' with callers := [] }
+
+/-- what the harness reads from the client object through the accessor: the paths with a
+connection in the map and the paths with a lock object -/
+def clientState (s : State) (client : String) : String :=
+  let mine := s.clients.filter (fun e => e.1.1 == client)
+  let names (l : List String) : String := if l.isEmpty then "-" else ",".intercalate l
+  let sorted (l : List String) : List String := (l.toArray.qsort (· < ·)).toList
+  "conns=" ++ names (sorted ((mine.filter (fun e => e.2.cur.isSome)).map (·.1.2))) ++
+  " locks=" ++ names (sorted ((mine.filter (fun e => e.2.curLock.isSome)).map (·.1.2)))
 
 def showInt (i : Int) : String := toString i
 
@@ -1158,7 +1193,7 @@ def step (s : State) (toks : List String) : State × String :=
       if client.startsWith "x" then
         -- a client for a service name no service is registered under: the catch-all handler of the
         -- multiplexer upgrades and closes with 4001 (websocket.go:131-154); no handler is reached
-        (s, "close 4001 noservice")
+        (sendThrough s client path b false, "close 4001 noservice")
       else if client.startsWith "r" then
         -- one connection for all messages of this client: `wsConn` message by message
         if s.closed.contains client then (s, "noreply")
@@ -1167,9 +1202,11 @@ def step (s : State) (toks : List String) : State × String :=
           let r := wsShow s path b
           if r.2.startsWith "close" then ({ r.1 with closed := client :: r.1.closed }, "close") else r
       else
-        -- `Client.Send` redials after an error: always a live connection
+        -- through the client object (`KCl`): it redials after an error, so the request always travels
+        -- on a connection the server serves (`c14_client_keep_fail_redial`)
         let r := wsShow s path b
-        if slowFor client path b && r.2.startsWith "ok" then (r.1, "close - timeout") else r
+        let r : State × String := if slowFor client path b && r.2.startsWith "ok" then (r.1, "close - timeout") else r
+        (sendThrough r.1 client path b (r.2.startsWith "ok"), r.2)
     | none => (s, "bad-op")
   | ["rest", _thr, _client, method, ctype, res, tail, body] =>
     match restShow s method ctype res tail body with
@@ -1197,7 +1234,9 @@ def step (s : State) (toks : List String) : State × String :=
         | 0, st, txt => (st, txt)
         | k + 1, st, txt =>
           let r := wsShow st path b
-          go k r.1 (if txt.startsWith "close" then txt else r.2)
+          -- the first server is the one the `ws` ops talk to: same client object, same destination
+          let st' := if k + 1 = n then sendThrough r.1 _client path b (r.2.startsWith "ok") else r.1
+          go k st' (if txt.startsWith "close" then txt else r.2)
       go n s ""
     | _, _ => (s, "bad-op")
   | ["reg", api, sig] =>
@@ -1219,6 +1258,7 @@ def step (s : State) (toks : List String) : State × String :=
     match Util.unhex buf with
     | some b => directShow s path b
     | none => (s, "bad-op")
+  | ["cstate", client] => (s, clientState s client)
   | ["barrier"] => (s, "ok")
   | ["procs", n] => (s, if n.toNat?.isSome then "ok" else "bad-op")   -- GOMAXPROCS of the server process: no effect
   | ["calls"] => (s, toString s.calls)
